@@ -232,6 +232,7 @@ func c20(c *Ctx) {
 	w.noUseAfter()
 	w.heldOnlyWithoutPool()
 	w.poolPlumbing()
+	w.bufferIdentity()
 	w.writeErrorEndsMessage()
 	w.implicitClose()
 }
